@@ -48,6 +48,15 @@ PLAIN = {"Sa", "Sb", "Ea", "Eb", "Ma", "Mb", "Tx", "Ty"}
 FIELDS = ("cls", "xptoks", "xdtoks", "domcls", "dmax", "amax", "nameHi", "nameLo", "textHi", "textLo", "cntHi", "cntLo", "feat")
 
 
+def tlc_twice(fn):
+    """run a TLC job; if the JVM was killed from outside (rc 137/143: another job's clean-up, the OOM killer) run it once more"""
+    r = fn()
+    err = getattr(r, "error", None)
+    if err and re.search(r"rc=(-9|-15|137|143)\b", err):
+        r = fn()
+    return r
+
+
 def jvm(xmx):
     return {"JAVA_TOOL_OPTIONS": "-Xss256m -Xmx%s -DTLA-Library=%s -Dtlc2.tool.queue.IStateQueue=StateDeque" % (
         xmx, os.pathsep.join([os.path.join(vf.SPEC, "common"), SPECDIR]))}
@@ -107,8 +116,8 @@ def generate(ck, name, alphabet, first, maxlen, maxdead, only_matching=False, si
                                  "OnlyMatchingEnds": only_matching, "OutFile": '"%s"' % out},
                  invariants=["TypeOK", "BalanceAgrees", "WfIsTree", "MeasuresOK", "CaseOut"])
     with TLC_SLOTS:
-        r = vf.run_tlc(os.path.join(d, "MCXml.tla"), cfg, tag="C14_gen_" + name, workers=2, lib_dirs=[SPECDIR], timeout=1500,
-                       xmx="4g", simulate=simulate, depth=depth, seed=ck.seed if simulate else None)
+        r = tlc_twice(lambda: vf.run_tlc(os.path.join(d, "MCXml.tla"), cfg, tag="C14_gen_" + name, workers=2, lib_dirs=[SPECDIR],
+                                         timeout=1500, xmx="4g", simulate=simulate, depth=depth, seed=ck.seed if simulate else None))
     if r.error:
         raise vf.Infra("TLC failed on XmlDoc (%s): %s" % (name, r.error))
     if r.violated:
@@ -254,8 +263,8 @@ def merge_and_validate(ck, tag, opath, lines, meta, chunk=40000, cap=40):
                 for _, e in evs[start:]:
                     f.write(json.dumps(e) + "\n")
             with TLC_SLOTS:
-                v = vf.validate_trace(os.path.join(SPECDIR, "XmlBalanceTrace.tla"), cfg, tp, tag="C14_val_%s_%d" % (tag, i),
-                                      xmx="3g", timeout=1500, env=jvm("3g"))
+                v = tlc_twice(lambda: vf.validate_trace(os.path.join(SPECDIR, "XmlBalanceTrace.tla"), cfg, tp, tag="C14_val_%s_%d" % (tag, i),
+                                                        xmx="3g", timeout=1500, env=jvm("3g")))
             if v.error or v.violated:
                 errs = [x for x in v.out.splitlines() if x.startswith("Error") or "Attempted" in x]
                 raise vf.Infra("trace validation error (%s, trace kept: %s): %s %s\n%s" % (tag, tp, v.violated, "\n".join(errs[:12]), (v.error or "")[-600:]))
@@ -300,6 +309,9 @@ def final_report(ck):
     for tag, text, e, why, feat in acc["bad"]:
         groups.setdefault((why, feat), []).append((tag, text, e))
     for (why, feat), items in sorted(groups.items()):
+        if why.startswith("more than") and len(groups) > 1:
+            ck.note("%s: %d" % (why, len(items)))      # the recorded events of the same chunks are reported below/above
+            continue
         tags = sorted({t for t, _, _ in items})
         name = re.sub(r"\W+", "_", why + ("_" + feat if feat else ""))[:70]
         rp = ck.save_replay(name, {"events.json": [e for _, _, e in items[:300]],
